@@ -614,6 +614,28 @@ def gen_block_cases(out, tier, judges=None):
             {"op": "BlockAssembler.dtype", "block_dtypes": list(dl), "fill": repr(fill), "dtype": str(ba.dtype),
              "extract_dtype": str(got)} if di == 37 else None)
 
+    # extract(fill, dtype=req): every requested dtype the blocks can be cast to, with every kind of fill value
+    fills = [("FillNone", None), ("FillInt", 7), ("FillFloat", 77.0), ("FillFloat", 0.5), ("FillInt", np.int16(3)),
+             ("FillFloat", np.float32(2.0))]
+    qi = 0
+    for bd in dts:
+        for req in [None] + dts:
+            if req is not None and not np.can_cast(bd, req, "same_kind"):
+                continue
+            qi += 1
+            if tier == "quick" and qi % 2:
+                continue
+            kind, fill = fills[qi // 2 % len(fills)]
+            ba = BlockAssembler({(0, 0): np.ones((1, 1), dtype=bd)}, ((1,), (1,)))
+            try:
+                got = ba.extract(fill, dtype=req).dtype
+            except Exception:
+                got = np.dtype("uint8") if np.dtype(req or bd) != np.dtype("uint8") else np.dtype("int8")
+            creq = "None" if req is None else f"(Some {cdtype(req)})"
+            add("ba_dtype_req:" + kind, f"CBDtypeReq [{cdtype(bd)}] {kind} {creq} {cdtype(got)}", (bd, req, kind, repr(fill)),
+                True, None, judge=("assembler_options", ((1,), (1,)), (), (), [(0, 0)], bd, req,
+                                   fill_spec(fill), None, qi))
+
     n_val = 150 if tier == "quick" else 1200
     for vi in range(n_val):
         chy, chx, pre, post, present, mode = rand_layout(rng)
@@ -1104,6 +1126,81 @@ def p_assembler(chunks, pre, post, present, dtype, fill, roi, seed):
     return True, f"shape={ba.shape} roi={roi}"
 
 
+def fill_spec(fill):
+    """JSON-able description of a fill value: how it was spelled matters (python float vs numpy scalar)"""
+    if fill is None:
+        return ["none"]
+    if isinstance(fill, np.generic):
+        return ["np", str(fill.dtype), fill.item()]
+    if isinstance(fill, float):
+        return ["nan"] if fill != fill else ["float", fill]
+    return ["int", int(fill)]
+
+
+def fill_from_spec(spec):
+    if spec[0] == "none":
+        return None
+    if spec[0] == "nan":
+        return float("nan")
+    if spec[0] == "np":
+        return np.dtype(spec[1]).type(spec[2])
+    return float(spec[1]) if spec[0] == "float" else int(spec[1])
+
+
+def p_assembler_options(chunks, pre, post, present, block_dtype, req_dtype, fspec, roi, seed):
+    """extract(fill_value, dtype=...) for every pair of options: an explicitly requested dtype is the dtype of the
+    result whatever the fill value; without one a floating fill value upgrades an integer mosaic to float64; the pixels
+    are the window of the mosaic held in that dtype with that fill (default: nan for floats, 0 otherwise)"""
+    from odc.geo._blocks import BlockAssembler
+    chy, chx = (tuple(c) for c in chunks)
+    present = [tuple(k) for k in present]
+    pre, post = tuple(pre), tuple(post)
+    r = np.random.RandomState(seed)
+    blocks = {k: r.randint(1, 100, size=(*pre, chy[k[0]], chx[k[1]], *post)).astype(block_dtype) for k in present}
+    fill = fill_from_spec(fspec)
+    ba = BlockAssembler(blocks, (chy, chx), axis=len(pre))
+    working = np.dtype(block_dtype)
+    if req_dtype is not None:
+        want_dt = np.dtype(req_dtype)
+    elif fill is not None and np.dtype(type(fill) if isinstance(fill, np.generic) else np.min_scalar_type(fill)).kind == "f" \
+            and working.kind != "f":
+        want_dt = np.dtype("float64")
+    else:
+        want_dt = working
+    fillv = fill if fill is not None else (np.nan if want_dt.kind == "f" else 0)
+    got = ba.extract(fill, dtype=req_dtype, roi=roi)
+    ref = np.full((*pre, sum(chy), sum(chx), *post), fillv, dtype=want_dt)
+    oy = [sum(chy[:i]) for i in range(len(chy) + 1)]
+    ox = [sum(chx[:i]) for i in range(len(chx) + 1)]
+    for (iy, ix), b in blocks.items():
+        ref[(slice(None),) * len(pre) + (slice(oy[iy], oy[iy + 1]), slice(ox[ix], ox[ix + 1]))] = b
+    want = ref[ref_roi(roi, ref.shape, len(pre))] if roi is not None else ref
+    call = f"extract({fill!r}, dtype={req_dtype!r}, roi={roi}) on {block_dtype} blocks"
+    if got.dtype != want_dt:
+        return False, f"{call} returned dtype {got.dtype}, expected {want_dt}"
+    if got.shape != want.shape or not np.array_equal(got, want, equal_nan=(want_dt.kind == "f")):
+        return False, f"{call}: pixels differ from the {want_dt} mosaic window (shape {got.shape} vs {want.shape})"
+    return True, f"{call} -> {got.dtype}{got.shape}"
+
+
+def p_assembler_bad_step(chunks, present, roi):
+    """a window with a zero or negative step is rejected (ValueError), never answered with other pixels"""
+    from odc.geo._blocks import BlockAssembler
+    chy, chx = (tuple(c) for c in chunks)
+    blocks = {tuple(k): np.full((chy[k[0]], chx[k[1]]), 1 + k[0] * 7 + k[1], dtype="int16") for k in present}
+    ba = BlockAssembler(blocks, (chy, chx))
+    got = _err(lambda: ba.extract(0, roi=roi))
+    if got[0] == "ValueError":
+        return True, "rejected"
+    ref = build_mosaic((chy, chx), (), (), blocks, 0, "int16")
+    try:
+        want = ref[roi]
+    except Exception:
+        want = None
+    ok = got[0] == "ok" and want is not None and got[1].shape == want.shape and np.array_equal(got[1], want)
+    return ok, f"extract(roi={roi}) -> {got[0]} shape {getattr(got[1], 'shape', None)}; numpy gives {None if want is None else want.shape}"
+
+
 def limit_values(dtype, shape, r):
     """values at and near the limits of the dtype (plus a few ordinary ones)"""
     dt = np.dtype(dtype)
@@ -1156,7 +1253,8 @@ def p_assembler_mixed(chunks, pre, post, order, fill, roi, seed):
     return True, f"dtype={want_dt} shape={got.shape}"
 
 
-PREDICATES = {"no_mutation": p_no_mutation, "assembler_mixed": p_assembler_mixed, "index_forms": p_index_forms, "partition": p_partition, "index": p_index, "block": p_block, "locate_roundtrip": p_locate_roundtrip, "crop": p_crop,
+PREDICATES = {"assembler_options": p_assembler_options, "assembler_bad_step": p_assembler_bad_step,
+              "no_mutation": p_no_mutation, "assembler_mixed": p_assembler_mixed, "index_forms": p_index_forms, "partition": p_partition, "index": p_index, "block": p_block, "locate_roundtrip": p_locate_roundtrip, "crop": p_crop,
               "clip": p_clip, "geoboxtiles": p_geoboxtiles, "assembler": p_assembler}
 
 
@@ -1266,6 +1364,49 @@ def search(out, tier, run):
         if dtype.startswith("u") and fill < 0:
             fill = 0
         run("assembler", (chy, chx), pre, post, present, dtype, fill, roi, i)
+    # windows with steps (positive on any axis: numpy semantics; zero/negative: rejected)
+    def stepped(item, n):
+        if isinstance(item, slice) and rng.random() < 0.7:
+            return slice(item.start, item.stop, rng.choice([1, 2, 2, 3, n + 1]))
+        return item
+
+    for i in range(60 if tier == "quick" else 600):
+        chy, chx, pre, post, present, mode = rand_layout(rng)
+        shape = (*pre, sum(chy), sum(chx), *post) if present else (sum(chy), sum(chx))
+        axis = len(pre) if present else 0
+        if i % 2:
+            roi = tuple(stepped(rand_axis_slice(rng, n, allow_out=False), n) for n in (shape[axis], shape[axis + 1]))
+        else:
+            roi = tuple(stepped(rand_axis_slice(rng, n, allow_out=False), n) for n in shape)
+        run("assembler", (chy, chx), pre, post, present, rng.choice(dtypes), 0, roi, 1000 + i)
+        if i % 6 == 0:
+            bad = (slice(None, None, rng.choice([-1, -2, 0])), slice(0, sum(chx))) if i % 12 else \
+                (slice(0, sum(chy)), slice(sum(chx), None, -1))
+            run("assembler_bad_step", (chy, chx), [k for k in present], bad)
+    # extract(fill, dtype=...): option pairs
+    spellings = [None, 0, -9999, -9999.0, 0.5, float("nan"), np.int16(-5), np.float32(1.0), np.float64(-9999.0)]
+    for i in range(80 if tier == "quick" else 800):
+        chy, chx, pre, post, present, mode = rand_layout(rng)
+        bd = rng.choice(DTYPES)
+        reqs = [None] + [d for d in DTYPES if np.can_cast(bd, d, "same_kind")]
+        req = reqs[i % len(reqs)]
+        out_dt = np.dtype(req or bd)
+        fill = spellings[(i // 2) % len(spellings)]
+        if fill is not None and out_dt.kind != "f":
+            if isinstance(fill, float) and (fill != fill or fill != int(fill)) and req is not None:
+                fill = -9999.0        # a non-integral/nan fill cannot be stored in a requested integer dtype
+            if out_dt.kind == "u" or out_dt.itemsize == 1:
+                fill = type(fill)(abs(fill) % 100) if not isinstance(fill, np.generic) and fill == fill else fill
+                if isinstance(fill, np.generic):
+                    fill = 7.0 if fill.dtype.kind == "f" else 7
+        if not present:
+            pre, post = (), ()
+            bd = "float32" if req is None else bd
+        shape = (*pre, sum(chy), sum(chx), *post)
+        roi = None if i % 3 else tuple(rand_axis_slice(rng, n, allow_int=False, allow_out=False) for n in shape)
+        if not present and req is None and fill is not None and not (isinstance(fill, float) or getattr(fill, "dtype", np.dtype("i1")).kind == "f"):
+            fill = float(fill)
+        run("assembler_options", (chy, chx), pre, post, present, bd, req, fill_spec(fill), roi, i)
     # heterogeneous block dtypes, every insertion order (all permutations up to 3 blocks)
     families = [("uint8", "uint16", "uint32"), ("int8", "int16", "int32"), ("float32", "float64"),
                 ("uint8", "int16", "float32"), ("uint16", "int16", "int32"), ("uint8", "uint16", "float64"),
@@ -1360,7 +1501,7 @@ def replay(rp) -> int:
 
 
 META = {
-    "text": ("Coq theorems (coq/Props/C04.v, 31, all closed under the global context) over Gallina models of "
+    "text": ("Coq theorems (coq/Props/C04.v, 32, all closed under the global context) over Gallina models of "
              "Tiles, VariableSizedTiles, clip_tiles, GeoboxTiles and BlockAssembler.  For every base size >= 0 and tile "
              "size >= 1 (regular) and every pair of chunk tuples with non-negative entries and totals < 2^63 (variable): "
              "the tile count is the ceiling division; [r,c] returns tile_region = [B r, B(r+1)) x [B c, B(c+1)) with "
@@ -1373,7 +1514,7 @@ META = {
              "clip_tiles = crop to the bounding block with re-based indices; GeoboxTiles[r,c] = base cropped to "
              "Tiles[r,c], chunk_shape its shape, crop/clip keep every tile's absolute pixel window.  BlockAssembler: the "
              "constructor accepts every subset of well-shaped blocks and computes the mosaic shape, rejects a mis-shaped "
-             "block; the working dtype is independent of the insertion order of the blocks and (integer blocks <= 32 bits) holds every "
+             "block; an explicitly requested dtype wins over the fill value; the working dtype is independent of the insertion order of the blocks and (integer blocks <= 32 bits) holds every "
              "value of every block; a (ry,rx) request is normalised to a window; for every window with 0<=start<=stop, every subset of "
              "present blocks, every extra-axis re-indexing and cast, extract = window shape and at each pixel the block "
              "value of the tile containing it if present else fill (proved by instantiating C17's slice_intersect3 "
@@ -1395,7 +1536,9 @@ META = {
              "(oracle; correspondence restricted to in-range extra slices); min/max over the selection in clip_tiles as "
              "folds.  A GeoBox is abstracted to its pixel window (offset, shape) in a root grid: the affine algebra of "
              "GeoBox.__getitem__ is C02's subject; the harness checks the translation is exact (power-of-two "
-             "resolution, sizes < 2^53).  Domain restrictions in the theorems: tile sizes >= 1 (0 is proved to be an "
+             "resolution, sizes < 2^53).  The model of extract takes windows without steps (step None); stepped windows (positive steps honoured "
+             "since repair 058c8f3, zero/negative rejected) are covered by the search against numpy only.  "
+             "Domain restrictions in the theorems: tile sizes >= 1 (0 is proved to be an "
              "error), base >= 0 (>= 1 for tile_shape/chunks; base 0 has its own theorem, and tile_shape((-1,..)) then "
              "answers the tile size: recorded Example), chunk entries >= 0 with total < 2^63 (the Example "
              "offsets_wrap_beyond_int64 shows the bound is needed), slice selections with 0 <= a < S, a <= b <= S "
